@@ -35,6 +35,7 @@ func init() {
 			ruleEncoderDictArgs(c, r, "")
 			ruleRingModulus(c, r, "", "enc")
 			ruleSpecIndices(c, r, "")
+			ruleLcLp(c, r, "")
 			ruleCoderStates(c, r, "")
 			ruleProbModel(c, r, "")
 			ruleStateFormulas(c, r, "")
@@ -66,6 +67,8 @@ func init() {
 			ruleByteAtGuards(c, r, "")
 			ruleCtorReopen(c, r, "")
 			ruleSpecIndices(c, r, "")
+			ruleLitInit(c, r, "")
+			ruleNilDecoder(c, r, "")
 			ruleCounting(c, r, "", "read")
 			ruleRawEOFFlag(c, r, "")
 			ruleCheckEncoding(c, r, "")
